@@ -5,7 +5,7 @@ B = lambda s: list(s.encode() if isinstance(s, str) else s)
 
 KT_ALL = ["k256", "libsecp", "ed", "comb"]
 KT_SECP = ["k256", "libsecp", "comb"]
-SECP_SIGNERS = ["k1", "k2", "k3"]
+SECP_SIGNERS = ["k1", "k2", "k3", "k4"]      # k4: even y (compressed tag 02), the others odd
 ED_SIGNERS = ["e1", "e2"]
 RESERVED = ["id", "ip", "ip6", "tcp", "tcp6", "udp", "udp6", "secp256k1", "ed25519"]
 PORT_KEYS = ["tcp", "tcp6", "udp", "udp6"]
@@ -403,6 +403,8 @@ def struct_mutations(rng, rec):
         for tag, v in [("pk_33_zero", enc_str([0] * 33)), ("pk_02_ff", enc_str([2] + [255] * 32)),
                        ("pk_32_bytes", enc_str(KEYS[by]["pk"][:32])), ("pk_34_bytes", enc_str(KEYS[by]["pk"] + [0])),
                        ("pk_prefix_04", enc_str([4] + KEYS[by]["pk"][1:])), ("pk_empty", enc_str([])),
+                       ("pk_compact_tag_05", enc_str([5] + KEYS[by]["pk"][1:])), ("pk_tag_00", enc_str([0] + KEYS[by]["pk"][1:])),
+                       ("pk_other_parity", enc_str([5 - KEYS[by]["pk"][0]] + KEYS[by]["pk"][1:])),
                        ("pk_64_raw_xy", enc_str(KEYS[by].get("xy", [0] * 64))), ("pk_65_uncompressed", enc_str([4] + KEYS[by].get("xy", [0] * 64))),
                        ("pk_65_hybrid", enc_str([6 + (KEYS[by].get("xy", [0] * 64)[63] & 1)] + KEYS[by].get("xy", [0] * 64))),
                        ("pk_list", enc_list([enc_str(KEYS[by]["pk"])]))]:
@@ -1283,6 +1285,19 @@ def gen_api(rng, n):
             for _ in range(max(1, n // 8)):
                 steps.append({"op": "pubkey", "kt": kt, "signer": signer, "probe": rand_bytes(rng, rng.choice([0, 1, 32, 100, 300]))})
             steps.append({"op": "build", "h": "e", "kt": kt, "signer": signer, "empty": True, "calls": [], "obs": "full"})
+    # the public-key parsers on valid keys, near-valid keys and junk of every length
+    P = 0xFFFFFFFFFFFFFFFFFFFFFFFFFFFFFFFFFFFFFFFFFFFFFFFFFFFFFFFEFFFFFC2F
+    cand = [KEYS[k]["pk"] for k in ("k1", "k2", "k3", "k4", "e1", "e2")] + [[5] + KEYS[k]["pk"][1:] for k in ("k1", "k4")]
+    cand += [[4] + KEYS["k1"]["xy"], KEYS["k1"]["xy"], [6 + (KEYS["k1"]["xy"][63] & 1)] + KEYS["k1"]["xy"], [2] + [0] * 32, [3] + [0] * 32, [2] + [255] * 32,
+             [2] + list(P.to_bytes(32, "big")), [2] + list((P - 1).to_bytes(32, "big")), [0] * 33, [0], [], [1] + [0] * 31, [0] * 32, [255] * 32,
+             [5] + KEYS["k1"]["pk"][1:], KEYS["k1"]["pk"][:32], KEYS["k1"]["pk"] + [0], KEYS["e1"]["pk"][:31], KEYS["e1"]["pk"] + [0]]
+    for _ in range(n * 3):
+        cand.append([rng.choice([2, 3])] + rand_bytes(rng, 32))
+        cand.append(rand_bytes(rng, 32))
+    for ln in range(0, 70, 3):
+        cand.append(rand_bytes(rng, ln))
+    for b in cand:
+        steps.append({"op": "decpub", "bytes": b})
     for _ in range(n):
         steps.append({"op": "keygen", "scheme": "secp"})
         steps.append({"op": "keygen", "scheme": "ed"})
